@@ -411,6 +411,96 @@ fn single_step_all_states(report: &Report, tier: Tier) {
         "letters": letters.len(), "states_satisfying_invariant": states, "real_encode_decode_calls": steps, "flushes": fl, "refills": rf}));
 }
 
+/// every way of importing words into an ANS coder gives the SAME coder: `from_compressed`,
+/// `from_compressed_slice`, `from_reversed_compressed`, `from_reversed_compressed_iter` (and, for data followed
+/// by its marker word, `from_binary`, `from_binary_slice`, `from_reversed_binary`, `from_reversed_binary_iter`)
+/// must decode the same symbols, report the same sizes and — where the backend can be written — continue
+/// encoding to the same words. Start states: the import strings of the walks plus the exports of all letter
+/// sequences of length <= `depth`.
+fn import_forms<C: Cfg>(report: &Report, depth: usize) {
+    use constriction::backends::Cursor;
+    let letters = small_alphabet::<C>();
+    let mut starts: Vec<Vec<u128>> = import_inits::<C>();
+    {
+        let mut frontier: Vec<AnsCoder<C::W, C::S>> = vec![AnsCoder::new()];
+        for _ in 0..depth {
+            let mut next = vec![];
+            for c in &frontier {
+                for &l in letters.iter().step_by(2) {
+                    let mut d = c.clone();
+                    C::ans_encode(&mut d, l).unwrap();
+                    starts.push(ans_export::<C>(&d));
+                    next.push(d);
+                }
+            }
+            frontier = next;
+        }
+    }
+    starts.sort();
+    starts.dedup();
+    let probes: Vec<Letter> = vec![letters[0], letters[4], letters[letters.len() - 1], letters[2], letters[7]];
+    let mut n = 0u64;
+    let mut bad: Vec<(String, String)> = vec![];
+    for w in &starts {
+        let words: Vec<C::W> = w.iter().map(|&x| C::w(x)).collect();
+        let rev: Vec<C::W> = words.iter().rev().cloned().collect();
+        let Ok(base) = AnsCoder::<C::W, C::S>::from_compressed(words.clone()) else { continue };
+        let expect: Vec<u8> = { let mut c = base.clone(); probes.iter().map(|&l| C::ans_decode(&mut c, l).unwrap()).collect() };
+        let sizes = (base.num_words(), base.num_bits(), base.is_empty());
+        macro_rules! same { ($name:literal, $coder:expr) => {{
+            n += 1;
+            match $coder {
+                Some(mut c) => {
+                    let got_sizes = (c.num_words(), c.num_bits(), c.is_empty());
+                    let got: Vec<Option<u8>> = probes.iter().map(|&l| C::ans_decode(&mut c, l).ok()).collect();
+                    if got != expect.iter().map(|&k| Some(k)).collect::<Vec<_>>() || got_sizes != sizes {
+                        bad.push((format!("AnsCoder::{} | {} | differs from from_compressed on the same words", $name, C::NAME), format!("words {:x?}: decodes {:?} (sizes {:?}), from_compressed decodes {:?} (sizes {:?})", w, got, got_sizes, expect, sizes)));
+                    }
+                }
+                None => bad.push((format!("AnsCoder::{} | {} | refuses words that from_compressed accepts", $name, C::NAME), format!("words {:x?}", w))),
+            }
+        }}; }
+        same!("from_compressed_slice", AnsCoder::<C::W, C::S, _>::from_compressed_slice(&words[..]).ok());
+        same!("from_reversed_compressed", AnsCoder::<C::W, C::S, _>::from_reversed_compressed(rev.clone()).ok());
+        same!("from_reversed_compressed_iter", AnsCoder::<C::W, C::S, _>::from_reversed_compressed_iter(words.iter().rev().map(|&x| Ok::<C::W, core::convert::Infallible>(x))).ok());
+        same!("from_compressed(Cursor)", AnsCoder::<C::W, C::S, _>::from_compressed(Cursor::new_at_write_end(words.clone())).ok());
+        if w.last() == Some(&1) {
+            let data = &words[..words.len() - 1];
+            let drev: Vec<C::W> = data.iter().rev().cloned().collect();
+            same!("from_binary", AnsCoder::<C::W, C::S>::from_binary(data.to_vec()).ok());
+            same!("from_binary_slice", Some(AnsCoder::<C::W, C::S, _>::from_binary_slice(data)));
+            same!("from_reversed_binary", Some(AnsCoder::<C::W, C::S, _>::from_reversed_binary(drev.clone())));
+            same!("from_reversed_binary_iter", AnsCoder::<C::W, C::S, _>::from_reversed_binary_iter(data.iter().rev().map(|&x| Ok::<C::W, core::convert::Infallible>(x))).ok());
+        }
+        // a reversed import keeps encoding to the same words (read back through into_compressed of the twin)
+        {
+            n += 1;
+            if let Ok(mut r) = AnsCoder::<C::W, C::S, _>::from_reversed_compressed(rev.clone()) {
+                // decode two symbols and push them back: the reversed backend is written in place
+                let a = C::ans_decode(&mut r, probes[0]).unwrap();
+                let b = C::ans_decode(&mut r, probes[1]).unwrap();
+                let (pc, pp) = part_interval(probes[1].prec, probes[1].c, probes[1].p, b);
+                let (qc, qp) = part_interval(probes[0].prec, probes[0].c, probes[0].p, a);
+                let ok = pp != 0 && qp != 0 && C::ans_encode(&mut r, Letter::new(probes[1].prec, pc, pp)).is_ok() && C::ans_encode(&mut r, Letter::new(probes[0].prec, qc, qp)).is_ok();
+                let again: Vec<Option<u8>> = probes.iter().map(|&l| C::ans_decode(&mut r, l).ok()).collect();
+                if !ok || again != expect.iter().map(|&k| Some(k)).collect::<Vec<_>>() {
+                    bad.push((format!("AnsCoder::from_reversed_compressed | {} | decode + re-encode in place does not restore the coder", C::NAME), format!("words {:x?}: {:?} vs {:?}", w, again, expect)));
+                }
+            }
+        }
+        if bad.len() > 30 { break; }
+    }
+    report.add_states(starts.len() as u64);
+    report.add_transitions(n * probes.len() as u64);
+    report.count("import_form_comparisons", n);
+    report.section(json!({"cfg": C::NAME, "part": "import forms (8 constructors) compared on the same words", "start_states": starts.len(), "comparisons": n}));
+    let mut seen = std::collections::BTreeMap::<String, u32>::new();
+    for (i, d) in bad {
+        let k = seen.entry(i.clone()).or_insert(0);
+        if *k < 2 { *k += 1; report.violation(crate::report::Violation { identity: i, detail: d, case: json!({"kind": "none"}) }); }
+    }
+}
+
 /// single-step induction from BOUNDARY head values on the wider instantiations (all 2^S heads cannot be
 /// enumerated there): both ends of the head range, every power of two +- 3, the flush thresholds
 /// p * 2^(S-P) +- 2 of every letter, the refill threshold 2^(S-W) +- 64; heads below 2^(S-W) only with an
@@ -524,6 +614,13 @@ pub fn run(report: &Report) {
     // so everything pushed before must still pop in order and encoding must be able to continue (the
     // fault enumeration of C09, judged here against C01's stack semantics)
     super::c09::faults_part(report, if q { 5 } else { 7 });
+    import_forms::<U8U16>(report, if q { 3 } else { 4 });
+    import_forms::<U8U32>(report, if q { 3 } else { 4 });
+    import_forms::<U8U64>(report, 2);
+    import_forms::<U16U32>(report, 3);
+    import_forms::<U16U64>(report, 2);
+    import_forms::<U32U64>(report, 3);
+    import_forms::<U64U128>(report, 2);
     batch_forms::<U8U16>(report, if q { 3 } else { 4 });
     batch_forms::<U8U32>(report, if q { 3 } else { 4 });
     batch_forms::<U32U64>(report, 3);
